@@ -927,12 +927,27 @@ func (g *gen) augments() {
 		}
 		// undeclared rpc input/output are legal targets too
 		for _, c := range all {
-			if c.x.Kind == KRPC {
-				if c.x.Input == nil {
-					cand = append(cand, target{append(append([]Step(nil), c.steps...), Step{c.steps[len(c.steps)-1].Mod, "input"}), &XNode{Kind: KInput}})
+			if c.x.Kind == KRPC || c.x.Kind == KAction {
+				imp := false
+				for p := c.x; p != nil; p = p.Parent {
+					if p.Implicit {
+						imp = true
+					}
 				}
-				if c.x.Output == nil {
-					cand = append(cand, target{append(append([]Step(nil), c.steps...), Step{c.steps[len(c.steps)-1].Mod, "output"}), &XNode{Kind: KOutput}})
+				if imp && !g.p.LateAugments {
+					continue
+				}
+				for _, io := range []struct {
+					have *XNode
+					kind string
+				}{{c.x.Input, KInput}, {c.x.Output, KOutput}} {
+					if io.have == nil {
+						xn := &XNode{Kind: io.kind}
+						if imp {
+							late[xn] = true
+						}
+						cand = append(cand, target{append(append([]Step(nil), c.steps...), Step{c.steps[len(c.steps)-1].Mod, io.kind}), xn})
+					}
 				}
 			}
 		}
